@@ -102,66 +102,114 @@ theorem program_cover (hc : c.Good) (wf : TxnWF t) {m : Mut} (hm : m ∈ t.muts)
 
 /-! ### the invariant -/
 
-structure SInv (c : ClientCfg) (t : Txn) (y : Sys) : Prop where
-  g : GInv t y.store
-  pc : y.pc ≤ y.pcMax
-  e : t.ip < y.pcMax → HasC t.start (y.store t.primary)
-  f : ∀ i ms, i < y.pcMax → (program c t)[i]? = some (.prewrite ms) → ∀ m ∈ ms, m ∈ t.muts → Touched t.start (y.store m.key)
-  lc : ∀ cv, y.learned = some (.committed cv) → cv = t.cv ∧ HasC t.start (y.store t.primary)
-  lr : y.learned = some .rolledBack → HasR t.start (y.store t.primary)
+/-- the current run's grouping is a well-formed regrouping of the same transaction -/
+structure SameTxn (t cur : Txn) : Prop where
+  wf : TxnWF cur
+  muts : cur.muts = t.muts
+  primary : cur.primary = t.primary
+  start : cur.start = t.start
+  cv : cur.cv = t.cv
 
-theorem SInv.allTouched (hc : c.Good) (wf : TxnWF t) {y : Sys} (h : SInv c t y) (hip : t.ip ≤ y.pcMax) :
-    AllTouched t y.store := by
-  intro m hm
-  obtain ⟨i, ms, hi, hp, hmem⟩ := program_cover (c := c) hc wf hm
-  exact h.f i ms (by omega) hp m hmem hm
+theorem SameTxn.refl (wf : TxnWF t) : SameTxn t t := ⟨wf, rfl, rfl, rfl, rfl⟩
 
-/-- executing the RPC with index `i ≤ pcMax` -/
-theorem exec_inv (hc : c.Good) (wf : TxnWF t) {y : Sys} (h : SInv c t y) {i : Nat} (hi : i ≤ y.pcMax)
-    {rpc : Rpc} (hr : (program c t)[i]? = some rpc) :
-    GInv t (execRpc c t rpc y.store).1 ∧ SMono t y.store (execRpc c t rpc y.store).1 ∧
-    (i = t.ip → (execRpc c t rpc y.store).2 = true → HasC t.start ((execRpc c t rpc y.store).1 t.primary)) ∧
-    (∀ ms, rpc = .prewrite ms → (execRpc c t rpc y.store).2 = true →
-      ∀ m ∈ ms, Touched t.start ((execRpc c t rpc y.store).1 m.key)) := by
-  by_cases h1 : i < t.ip
-  · obtain ⟨r, hr'⟩ := program_lt (c := c) (t := t) hc h1
-    rw [hr'] at hr
-    simp only [Option.some.injEq] at hr
-    subst hr
-    have := prewrite_ginv wf (t.mutsIn r) y.store h.g (fun m hm => (mutsIn_sub hm).1)
+theorem SameTxn.regroup (wf : TxnWF t) {g : Grouping} (hg : g.OK t) : SameTxn t (t.regroup g) :=
+  ⟨⟨wf.lt, wf.kinds, wf.nodup, wf.prim, hg.1, hg.2⟩, rfl, rfl, rfl, rfl⟩
+
+/-- an RPC that was sent may be executed now (and again later) -/
+def IssOK (t : Txn) (s : Store) : Rpc → Prop
+  | .prewrite ms => ∀ m ∈ ms, m ∈ t.muts
+  | .commit ks => (ks = [t.primary] ∧ AllTouched t s) ∨
+                  ((∀ k ∈ ks, k ≠ t.primary ∧ ∃ m ∈ t.muts, m.key = k) ∧ HasC t.start (s t.primary))
+
+theorem IssOK.mono (wf : TxnWF t) {s s' : Store} (mono : SMono t s s') {rpc : Rpc} (h : IssOK t s rpc) : IssOK t s' rpc := by
+  cases rpc with
+  | prewrite ms => exact h
+  | commit ks =>
+    rcases h with ⟨e, ha⟩ | ⟨hk, hc⟩
+    · exact Or.inl ⟨e, fun m hm => (mono m.key ⟨m, hm, rfl⟩).t (ha m hm)⟩
+    · exact Or.inr ⟨hk, (mono t.primary wf.primIsKey).c hc⟩
+
+/-- executing an RPC that satisfies `IssOK` -/
+theorem exec_iss (hc : c.Good) (wf : TxnWF t) {s : Store} (g : GInv t s) {rpc : Rpc} (h : IssOK t s rpc) :
+    GInv t (execRpc c t rpc s).1 ∧ SMono t s (execRpc c t rpc s).1 ∧
+    (rpc = .commit [t.primary] → (execRpc c t rpc s).2 = true → HasC t.start ((execRpc c t rpc s).1 t.primary)) ∧
+    (∀ ms, rpc = .prewrite ms → (execRpc c t rpc s).2 = true → ∀ m ∈ ms, Touched t.start ((execRpc c t rpc s).1 m.key)) := by
+  cases rpc with
+  | prewrite ms =>
+    have := prewrite_ginv wf c.perc ms s g h
     simp only [execRpc]
-    refine ⟨this.1, this.2.1, fun e => by omega, fun ms hms hok => ?_⟩
+    refine ⟨this.1, this.2.1, (fun e => by cases e), fun ms' hms hok => ?_⟩
     simp only [Rpc.prewrite.injEq] at hms
     subst hms
     exact this.2.2 (by simpa using hok)
-  · by_cases h2 : i = t.ip
+  | commit ks =>
+    rcases h with ⟨e, ha⟩ | ⟨hk, hC⟩
+    · subst e
+      have := commit_prim_ginv wf c.perc s g ha
+      simp only [execRpc]
+      exact ⟨this.1, this.2.1, fun _ hok => this.2.2 (by simpa using hok) hc.2.2, fun ms hms => by cases hms⟩
+    · have := commit_sec_ginv wf c.perc ks s g hC hk
+      simp only [execRpc]
+      refine ⟨this.1, this.2, fun e hok => ?_, fun ms hms => by cases hms⟩
+      simp only [Rpc.commit.injEq] at e
+      subst e
+      exact absurd rfl (hk t.primary (List.mem_singleton.2 rfl)).1
+
+structure SInv (c : ClientCfg) (t : Txn) (y : Sys) : Prop where
+  g : GInv t y.store
+  cw : SameTxn t y.cur
+  e : y.cur.ip < y.pc → HasC t.start (y.store t.primary)
+  f : ∀ i ms, i < y.pc → (program c y.cur)[i]? = some (.prewrite ms) → ∀ m ∈ ms, m ∈ t.muts → Touched t.start (y.store m.key)
+  iss : ∀ rpc ∈ y.issued, IssOK t y.store rpc
+  lc : ∀ cv, y.learned = some (.committed cv) → cv = t.cv ∧ HasC t.start (y.store t.primary)
+  lr : y.learned = some .rolledBack → HasR t.start (y.store t.primary)
+
+/-- the RPC at any position `i ≤ pc` of the current program may be executed, given the
+bookkeeping about the positions below `pc` -/
+theorem pend_ok (hc : c.Good) {cur : Txn} (cw : SameTxn t cur) {s : Store} {pc : Nat}
+    (e : cur.ip < pc → HasC t.start (s t.primary))
+    (f : ∀ i ms, i < pc → (program c cur)[i]? = some (.prewrite ms) → ∀ m ∈ ms, m ∈ t.muts → Touched t.start (s m.key))
+    {rpc : Rpc} (hr : (program c cur)[pc]? = some rpc) : IssOK t s rpc := by
+  by_cases h1 : pc < cur.ip
+  · obtain ⟨r, hr'⟩ := program_lt (c := c) (t := cur) hc h1
+    rw [hr'] at hr
+    simp only [Option.some.injEq] at hr
+    subst hr
+    intro m hm
+    exact cw.muts ▸ (mutsIn_sub hm).1
+  · by_cases h2 : pc = cur.ip
     · subst h2
       rw [program_ip hc] at hr
       simp only [Option.some.injEq] at hr
       subst hr
-      have := commit_prim_ginv wf c.perc y.store h.g (h.allTouched hc wf hi)
-      simp only [execRpc]
-      refine ⟨this.1, this.2.1, fun _ hok => this.2.2 (by simpa using hok) hc.2.2, fun ms hms => by cases hms⟩
-    · have h3 : t.ip < i := by omega
-      obtain ⟨ks, rfl, hks⟩ := program_gt hc wf h3 hr
-      have hP := h.e (by omega)
-      have := commit_sec_ginv wf c.perc ks y.store h.g hP hks
-      simp only [execRpc]
-      exact ⟨this.1, this.2, fun e => by omega, fun ms hms => by cases hms⟩
+      refine Or.inl ⟨by rw [cw.primary], fun m hm => ?_⟩
+      obtain ⟨i, ms, hi, hp, hmem⟩ := program_cover (c := c) hc cw.wf (cw.muts ▸ hm)
+      exact f i ms hi hp m hmem hm
+    · have h3 : cur.ip < pc := by omega
+      obtain ⟨ks, rfl, hks⟩ := program_gt hc cw.wf h3 hr
+      refine Or.inr ⟨fun k hk => ?_, e h3⟩
+      obtain ⟨a, m, hm, b⟩ := hks k hk
+      exact ⟨cw.primary ▸ a, m, cw.muts ▸ hm, b⟩
+
+theorem SInv.pend (hc : c.Good) {y : Sys} (h : SInv c t y) {rpc : Rpc} (hr : (program c y.cur)[y.pc]? = some rpc) :
+    IssOK t y.store rpc := pend_ok hc h.cw h.e h.f hr
 
 /-- a store change that preserves `GInv` and loses nothing keeps the bookkeeping valid -/
 theorem SInv.store {y : Sys} (h : SInv c t y) (wf : TxnWF t) {s' : Store} (g : GInv t s') (mono : SMono t y.store s')
-    (y' : Sys) (hs : y'.store = s') (hpc : y'.pc ≤ y'.pcMax) (hmax : y'.pcMax = y.pcMax) (hl : y'.learned = y.learned) :
-    SInv c t y' := by
-  refine ⟨hs ▸ g, hpc, ?_, ?_, ?_, ?_⟩
-  · intro hlt; rw [hs]; exact (mono t.primary wf.primIsKey).c (h.e (hmax ▸ hlt))
-  · intro i ms hi hp m hm hmt; rw [hs]; exact (mono m.key ⟨m, hmt, rfl⟩).t (h.f i ms (hmax ▸ hi) hp m hm hmt)
+    (y' : Sys) (hs : y'.store = s') (hcur : y'.cur = y.cur) (hpc : y'.pc = y.pc) (hiss : y'.issued = y.issued)
+    (hl : y'.learned = y.learned) : SInv c t y' := by
+  refine ⟨hs ▸ g, hcur ▸ h.cw, ?_, ?_, ?_, ?_, ?_⟩
+  · intro hlt; rw [hs]; rw [hcur, hpc] at hlt; exact (mono t.primary wf.primIsKey).c (h.e hlt)
+  · intro i ms hi hp m hm hmt; rw [hs]; rw [hpc] at hi; rw [hcur] at hp
+    exact (mono m.key ⟨m, hmt, rfl⟩).t (h.f i ms hi hp m hm hmt)
+  · intro rpc hr; rw [hs]; rw [hiss] at hr; exact (h.iss rpc hr).mono wf mono
   · intro cv hcv; rw [hs]; obtain ⟨a, b⟩ := h.lc cv (hl ▸ hcv); exact ⟨a, (mono t.primary wf.primIsKey).c b⟩
   · intro hrb; rw [hs]; exact (mono t.primary wf.primIsKey).r (h.lr (hl ▸ hrb))
 
 theorem SInv.same_store {y : Sys} (h : SInv c t y) (wf : TxnWF t) (y' : Sys) (hs : y'.store = y.store)
-    (hpc : y'.pc ≤ y'.pcMax) (hmax : y'.pcMax = y.pcMax) (hl : y'.learned = y.learned) : SInv c t y' :=
-  h.store wf h.g (SMono.refl _ _) y' hs hpc hmax hl
+    (hcur : y'.cur = y.cur) (hpc : y'.pc = y.pc) (hiss : y'.issued = y.issued) (hl : y'.learned = y.learned) :
+    SInv c t y' :=
+  h.store wf h.g (SMono.refl _ _) y' hs hcur hpc hiss hl
 
 theorem SInv.preserved' (hc : c.Good) (wf : TxnWF t) {y : Sys} (h : SInv c t y) (op : Op) (hd : op.Distinct t) :
     SInv c t (step c t y op) ∧ SMono t y.store (step c t y op).store := by
@@ -171,83 +219,105 @@ theorem SInv.preserved' (hc : c.Good) (wf : TxnWF t) {y : Sys} (h : SInv c t y) 
     split
     · exact ⟨h, SMono.refl _ _⟩
     · split
-      · exact ⟨h.same_store wf _ rfl h.pc rfl rfl, SMono.refl _ _⟩
+      · exact ⟨h.same_store wf _ rfl rfl rfl rfl rfl, SMono.refl _ _⟩
       · rename_i rpc hr
-        obtain ⟨g, mono, hcP, hpre⟩ := exec_inv hc wf h h.pc hr
+        have hok0 := h.pend hc hr
+        obtain ⟨g, mono, hcP, hpre⟩ := exec_iss hc wf h.g hok0
         split
         · rename_i hpro
           have hok : (execRpc c t rpc y.store).2 = true := by
             simpa [proceeds, hc.2.1] using hpro
-          refine ⟨⟨g, Nat.le_max_right _ _, ?_, ?_, ?_, ?_⟩, mono⟩
-          · intro hlt
-            show HasC t.start ((execRpc c t rpc y.store).1 t.primary)
-            by_cases hold : t.ip < y.pcMax
+          have he : y.cur.ip < y.pc + 1 → HasC t.start ((execRpc c t rpc y.store).1 t.primary) := by
+            intro hlt
+            by_cases hold : y.cur.ip < y.pc
             · exact (mono t.primary wf.primIsKey).c (h.e hold)
-            · have hpc := h.pc
-              have : y.pc = t.ip := by
-                have : t.ip < max y.pcMax (y.pc + 1) := hlt
-                omega
-              exact hcP this hok
-          · intro i ms hi hp m hm hmt
-            show Touched t.start ((execRpc c t rpc y.store).1 m.key)
-            by_cases hold : i < y.pcMax
+            · have hpc : y.pc = y.cur.ip := by omega
+              have hrp : rpc = .commit [t.primary] := by
+                rw [hpc, program_ip hc] at hr
+                simp only [Option.some.injEq] at hr
+                rw [← hr, h.cw.primary]
+              exact hcP hrp hok
+          have hf : ∀ i ms, i < y.pc + 1 → (program c y.cur)[i]? = some (.prewrite ms) → ∀ m ∈ ms, m ∈ t.muts →
+              Touched t.start ((execRpc c t rpc y.store).1 m.key) := by
+            intro i ms hi hp m hm hmt
+            by_cases hold : i < y.pc
             · exact (mono m.key ⟨m, hmt, rfl⟩).t (h.f i ms hold hp m hm hmt)
-            · have hpc := h.pc
-              have : i = y.pc := by
-                have : i < max y.pcMax (y.pc + 1) := hi
-                omega
+            · have : i = y.pc := by omega
               subst this
               rw [hr] at hp
               simp only [Option.some.injEq] at hp
               exact hpre ms hp hok m hm
+          refine ⟨⟨g, h.cw, he, hf, ?_, ?_, ?_⟩, mono⟩
+          · intro r hrm
+            show IssOK t (execRpc c t rpc y.store).1 r
+            rcases List.mem_append.1 hrm with h1 | h2
+            · exact (h.iss r h1).mono wf mono
+            · cases hnx : (program c y.cur)[y.pc + 1]? with
+              | none => rw [hnx] at h2; cases h2
+              | some r' =>
+                rw [hnx] at h2
+                simp only [Option.toList, List.mem_singleton] at h2
+                subst h2
+                exact pend_ok hc h.cw he hf hnx
           · intro cv hcv
             obtain ⟨a, b⟩ := h.lc cv hcv
             exact ⟨a, (mono t.primary wf.primIsKey).c b⟩
           · intro hrb
             exact (mono t.primary wf.primIsKey).r (h.lr hrb)
-        · exact ⟨h.store wf g mono _ rfl h.pc rfl rfl, mono⟩
+        · exact ⟨h.store wf g mono _ rfl rfl rfl rfl rfl, mono⟩
   | lose =>
     simp only [step]
     split
     · exact ⟨h, SMono.refl _ _⟩
     · split
-      · exact ⟨h.same_store wf _ rfl h.pc rfl rfl, SMono.refl _ _⟩
+      · exact ⟨h.same_store wf _ rfl rfl rfl rfl rfl, SMono.refl _ _⟩
       · rename_i rpc hr
-        obtain ⟨g, mono, _, _⟩ := exec_inv hc wf h h.pc hr
-        exact ⟨h.store wf g mono _ rfl h.pc rfl rfl, mono⟩
+        obtain ⟨g, mono, _, _⟩ := exec_iss hc wf h.g (h.pend hc hr)
+        exact ⟨h.store wf g mono _ rfl rfl rfl rfl rfl, mono⟩
   | drop =>
     simp only [step]
     split
     · exact ⟨h, SMono.refl _ _⟩
-    · exact ⟨h.same_store wf _ rfl h.pc rfl rfl, SMono.refl _ _⟩
+    · exact ⟨h.same_store wf _ rfl rfl rfl rfl rfl, SMono.refl _ _⟩
   | notLeader =>
     simp only [step]
     split
     · exact ⟨h, SMono.refl _ _⟩
     · split
-      · exact ⟨h.same_store wf _ rfl h.pc rfl rfl, SMono.refl _ _⟩
-      · exact ⟨h.same_store wf _ rfl h.pc rfl rfl, SMono.refl _ _⟩
+      · exact ⟨h.same_store wf _ rfl rfl rfl rfl rfl, SMono.refl _ _⟩
+      · exact ⟨h.same_store wf _ rfl rfl rfl rfl rfl, SMono.refl _ _⟩
   | redeliver i =>
     simp only [step]
     split
-    · rename_i hi
-      split
-      · exact ⟨h, SMono.refl _ _⟩
-      · rename_i rpc hr
-        obtain ⟨g, mono, _, _⟩ := exec_inv hc wf h hi hr
-        exact ⟨h.store wf g mono _ rfl h.pc rfl rfl, mono⟩
     · exact ⟨h, SMono.refl _ _⟩
-  | restart =>
+    · rename_i rpc hr
+      obtain ⟨g, mono, _, _⟩ := exec_iss hc wf h.g (h.iss rpc (List.mem_of_getElem? hr))
+      exact ⟨h.store wf g mono _ rfl rfl rfl rfl rfl, mono⟩
+  | restart gr =>
     simp only [step]
     split
     · exact ⟨h, SMono.refl _ _⟩
-    · exact ⟨h.same_store wf _ rfl (Nat.zero_le _) rfl rfl, SMono.refl _ _⟩
+    · have hg : gr.OK t := hd
+      have cw' := SameTxn.regroup wf hg
+      refine ⟨⟨h.g, cw', fun hlt => by simp at hlt, fun i ms hi => by simp at hi, ?_, h.lc, h.lr⟩, SMono.refl _ _⟩
+      intro r hrm
+      show IssOK t y.store r
+      rcases List.mem_append.1 hrm with h1 | h2
+      · exact h.iss r h1
+      · cases hnx : (program c (t.regroup gr))[0]? with
+        | none => rw [hnx] at h2; cases h2
+        | some r' =>
+          rw [hnx] at h2
+          simp only [Option.toList, List.mem_singleton] at h2
+          subst h2
+          exact pend_ok (pc := 0) hc cw' (fun hlt => by simp at hlt) (fun i ms hi => by simp at hi) hnx
   | check cur =>
     simp only [step]
     obtain ⟨g, mono, hcm, hrb⟩ := check_ginv wf cur y.store h.g
-    refine ⟨⟨g, h.pc, ?_, ?_, ?_, ?_⟩, mono⟩
+    refine ⟨⟨g, h.cw, ?_, ?_, ?_, ?_, ?_⟩, mono⟩
     · intro hlt; exact (mono t.primary wf.primIsKey).c (h.e hlt)
     · intro i ms hi hp m hm hmt; exact (mono m.key ⟨m, hmt, rfl⟩).t (h.f i ms hi hp m hm hmt)
+    · intro r hr; exact (h.iss r hr).mono wf mono
     · intro cv hcv
       show cv = t.cv ∧ HasC t.start ((y.store.set t.primary (checkTxnStatus t.start cur (y.store t.primary)).1) t.primary)
       split at hcv
@@ -277,16 +347,15 @@ theorem SInv.preserved' (hc : c.Good) (wf : TxnWF t) {y : Sys} (h : SInv c t y) 
       · exact ⟨h, SMono.refl _ _⟩
       · obtain ⟨hcv, hP⟩ := h.lc cv hl
         obtain ⟨g, mono⟩ := resolve_ginv wf cv (t.ownKeys ks) y.store h.g (Or.inl ⟨hcv, hP⟩) hown
-        exact ⟨h.store wf g mono _ rfl h.pc rfl rfl, mono⟩
+        exact ⟨h.store wf g mono _ rfl rfl rfl rfl rfl, mono⟩
     · rename_i hl
       obtain ⟨g, mono⟩ := resolve_ginv wf 0 (t.ownKeys ks) y.store h.g (Or.inr ⟨rfl, h.lr hl⟩) hown
-      exact ⟨h.store wf g mono _ rfl h.pc rfl rfl, mono⟩
+      exact ⟨h.store wf g mono _ rfl rfl rfl rfl rfl, mono⟩
     · exact ⟨h, SMono.refl _ _⟩
-
   | other r =>
     simp only [step]
     obtain ⟨g, mono⟩ := other_ginv wf c.perc y.store h.g r hd
-    exact ⟨h.store wf g mono _ rfl h.pc rfl rfl, mono⟩
+    exact ⟨h.store wf g mono _ rfl rfl rfl rfl rfl, mono⟩
 
 theorem SInv.preserved (hc : c.Good) (wf : TxnWF t) {y : Sys} (h : SInv c t y) (op : Op) (hd : op.Distinct t) :
     SInv c t (step c t y op) :=
@@ -307,11 +376,11 @@ structure Fresh (t : Txn) (s : Store) : Prop where
   norec : ∀ m ∈ t.muts, NoRec t.start (s m.key)
   nolock : ∀ m ∈ t.muts, ¬ HasL t.start (s m.key)
 
-theorem SInv.init (wf : TxnWF t) {s : Store} (fr : Fresh t s) : SInv c t (Sys.init s) := by
+theorem GInv.init (wf : TxnWF t) {s : Store} (fr : Fresh t s) : GInv t s := by
   have noC : ∀ m ∈ t.muts, ¬ HasC t.start (s m.key) := fun m hm => not_C_of_noRec (fr.norec m hm)
   have noR : ∀ m ∈ t.muts, ¬ HasR t.start (s m.key) := fun m hm => not_R_of_noRec (fr.norec m hm)
   obtain ⟨mp, hmp, hmpk⟩ := wf.prim
-  refine ⟨⟨?_, ?_, ?_, ?_⟩, Nat.le_refl _, ?_, ?_, ?_, ?_⟩
+  refine ⟨?_, ?_, ?_, ?_⟩
   · intro m hm
     refine ⟨fr.uniq m hm, ?_, ?_, ?_, ?_⟩
     · intro w hw hs; exact absurd hs (fr.norec m hm w hw)
@@ -321,9 +390,19 @@ theorem SInv.init (wf : TxnWF t) {s : Store} (fr : Fresh t s) : SInv c t (Sys.in
   · intro m hm _ hc; exact absurd hc (noC m hm)
   · intro m hm _ hr; exact absurd hr (noR m hm)
   · intro hc; exact absurd (hmpk ▸ hc) (noC mp hmp)
-  · intro hlt; simp [Sys.init] at hlt
-  · intro i ms hi; simp [Sys.init] at hi
-  · intro cv hcv; simp [Sys.init] at hcv
-  · intro hl; simp [Sys.init] at hl
+
+theorem SInv.init (hc : c.Good) (wf : TxnWF t) {s : Store} (fr : Fresh t s) : SInv c t (Sys.init c t s) := by
+  refine ⟨GInv.init wf fr, SameTxn.refl wf, fun hlt => by simp [Sys.init] at hlt, fun i ms hi => by simp [Sys.init] at hi,
+    ?_, fun cv hcv => by simp [Sys.init] at hcv, fun hl => by simp [Sys.init] at hl⟩
+  intro r hrm
+  show IssOK t s r
+  simp only [Sys.init] at hrm
+  cases hnx : (program c t)[0]? with
+  | none => rw [hnx] at hrm; cases hrm
+  | some r' =>
+    rw [hnx] at hrm
+    simp only [Option.toList, List.mem_singleton] at hrm
+    subst hrm
+    exact pend_ok (pc := 0) hc (SameTxn.refl wf) (fun hlt => by simp at hlt) (fun i ms hi => by simp at hi) hnx
 
 end NoKV.Client
